@@ -230,6 +230,14 @@ def o_list(ctx, case):
             for sig_ in (B.signature_bytes(None), blssig.sign("pop", sks[0], common)):
                 _call(ctx, case, "lists", "FastAggregateVerify", lambda: S.FastAggregateVerify(pks, common, sig_), True,
                       "the keys sum to the identity")
+        if suite == "pop":
+            # with ONE shared message the key pairings cancel, so the identity signature satisfies the equation;
+            # its seven non-canonical spellings (flag bits in the second word) must still be refused
+            for kflag in range(1, 8):
+                bad_inf = B.signature_bytes(None)[:48] + bytes([kflag << 5]) + bytes(47)
+                _call(ctx, case, "lists", "AggregateVerify",
+                      lambda: S.AggregateVerify(pks, [common] * len(pks), bad_inf), True,
+                      "the signature is a non-canonical encoding of the identity")
         zmsgs = [b"zero-sum-%d" % q for q in range(len(pks))]
         _call(ctx, case, "lists", "AggregateVerify", lambda: S.AggregateVerify(pks, zmsgs, B.signature_bytes(None)), True,
               "the identity signature is not the aggregate of these signers")
